@@ -27,7 +27,7 @@ pub static PROP: PropDef = PropDef {
     run_tape,
     exhaustive: Some(exhaustive),
     run_direct: Some(run_direct),
-    min_classes: &[("recv_boundary", 200), ("send_boundary", 200), ("recv_refused", 500), ("recv_accepted", 500), ("send_refused", 200), ("send_ok", 500), ("settings_after_call", 200), ("status_431_sent", 100), ("recv_on_split_half", 200), ("send_on_split_half", 200)],
+    min_classes: &[("recv_boundary", 200), ("send_boundary", 200), ("recv_refused", 500), ("recv_accepted", 500), ("send_refused", 200), ("send_ok", 500), ("settings_after_call", 200), ("status_431_sent", 100), ("recv_on_split_half", 200), ("recv_wire_longer_than_decoded", 500), ("send_on_split_half", 200)],
     extra: None,
 };
 
@@ -58,6 +58,10 @@ pub struct Case {
     pub tiny: bool,
     /// the call under test is made on a half obtained from `split()` (where a stream exists before the call)
     pub split: bool,
+    /// Recv*: how the raw peer spells the section on the wire (its RFC 9114 4.2.2 size is the same in every spelling):
+    /// 0 = static references / plain literals, 1 = Huffman literals, 2 = Huffman literals with a padding value of 0xff
+    /// bytes (about 3.25 wire bytes per value byte), 3 = plain literals with non-minimal prefixed integers
+    pub wire: u8,
 }
 
 /// drain the body, then ask for the trailers
@@ -364,7 +368,7 @@ async fn client_app(net: Net, c: Case, o: Shared<Obs>, go: Signal, sp: Spawner) 
 }
 
 fn case_json(c: &Case) -> Value {
-    json!({"kind": format!("{:?}", c.kind), "limit": c.limit.map(|l| l.to_string()), "size": c.size, "settings_first": c.settings_first, "peer_limit": c.peer_limit.map(|l| l.to_string()), "tiny": c.tiny, "split": c.split})
+    json!({"kind": format!("{:?}", c.kind), "limit": c.limit.map(|l| l.to_string()), "size": c.size, "settings_first": c.settings_first, "peer_limit": c.peer_limit.map(|l| l.to_string()), "tiny": c.tiny, "split": c.split, "wire": c.wire})
 }
 
 pub fn run_case(c: &Case, sched: &[u16], ctx: &mut Ctx) -> Verdict {
@@ -395,7 +399,28 @@ pub fn run_case(c: &Case, sched: &[u16], ctx: &mut Ctx) -> Verdict {
     // the peer's SETTINGS
     let advertised = if recv { c.peer_limit } else { c.limit };
     let settings: Vec<(u64, u64)> = advertised.map(|l| vec![(0x6, l)]).unwrap_or_default();
-    let section = rf::frame(rf::T_HEADERS, &rq::encode_section_simple(&ref_fields(&fields)));
+    let section = {
+        let mut rfields = ref_fields(&fields);
+        if c.wire == 2 {
+            for f in rfields.iter_mut().filter(|f| f.0 == PAD_NAME.as_bytes()) {
+                f.1 = vec![0xff; f.1.len()];
+            }
+        }
+        let block = match c.wire {
+            0 => rq::encode_section_simple(&rfields),
+            1 | 2 => rq::encode_section_literal(&rfields, true),
+            _ => {
+                let mut out = Vec::new();
+                rq::put_prefix(&mut out, 0, 2);
+                for f in &rfields {
+                    rq::put_field(&mut out, f, rq::Spelling::Literal { never_index: false, huff_name: false, huff_value: false, redundant: 3 });
+                }
+                out
+            }
+        };
+        debug_assert_eq!(rq::section_size(&rfields), c.size);
+        rf::frame(rf::T_HEADERS, &block)
+    };
     let mut ops = Vec::new();
     let preamble = vec![PeerOp::OpenUni(0), PeerOp::Write(0, peer::control_preamble(&settings))];
     match c.kind {
@@ -533,6 +558,9 @@ pub fn run_case(c: &Case, sched: &[u16], ctx: &mut Ctx) -> Verdict {
         if c.split {
             ctx.class("recv_on_split_half");
         }
+        if c.wire != 0 {
+            ctx.class("recv_wire_longer_than_decoded");
+        }
         if c.size.abs_diff(limit) <= 2 {
             ctx.class("recv_boundary");
             ctx.nontrivial(c);
@@ -620,9 +648,14 @@ fn exhaustive(ctx: &mut Ctx, shard: usize, nshards: usize) -> Verdict {
                                 if idx % nshards != shard {
                                     continue;
                                 }
-                                let c = Case { kind, limit, size, settings_first, peer_limit, tiny, split };
-                                run_case(&c, &[], ctx)?;
-                                n += 1;
+                                for wire in 0..4u8 {
+                                    if wire != 0 && (!recv || tiny) {
+                                        continue;
+                                    }
+                                    let c = Case { kind, limit, size, settings_first, peer_limit, tiny, split, wire };
+                                    run_case(&c, &[], ctx)?;
+                                    n += 1;
+                                }
                             }
                         }
                     }
@@ -632,7 +665,7 @@ fn exhaustive(ctx: &mut Ctx, shard: usize, nshards: usize) -> Verdict {
     }
     let _ = n;
     if shard == 0 {
-        ctx.subspace("8 kinds x 15 limits x sizes {limit-2..limit+2, fixed points} x SETTINGS timing x peer limit x 2 styles x whole stream / split() half", idx as u64);
+        ctx.subspace("8 kinds x 15 limits x sizes {limit-2..limit+2, fixed points} x SETTINGS timing x peer limit x 2 styles x whole stream / split() half x 4 wire spellings of the received section", idx as u64);
     }
     Ok(())
 }
@@ -651,7 +684,7 @@ fn run_tape(tape: &[u16], ctx: &mut Ctx) -> Verdict {
         2 => t.int(0, 1200),
         _ => t.int(0, 70_000),
     };
-    let c = Case { kind, limit, size, settings_first: t.chance(2, 3), peer_limit: if t.bool() { None } else { Some(*t.choose(&[0u64, 41, 42, 43, 1000])) }, tiny: t.chance(1, 4), split: t.bool() && splittable(kind) };
+    let c = Case { kind, limit, size, settings_first: t.chance(2, 3), peer_limit: if t.bool() { None } else { Some(*t.choose(&[0u64, 41, 42, 43, 1000])) }, tiny: t.chance(1, 4), split: t.bool() && splittable(kind), wire: if t.bool() { 0 } else { t.pick(4) as u8 } };
     let mut c = c;
     let recv = matches!(c.kind, Kind::RecvReqHeaders | Kind::RecvReqTrailers | Kind::RecvRespHeaders | Kind::RecvRespTrailers);
     if recv {
@@ -667,7 +700,7 @@ fn run_tape(tape: &[u16], ctx: &mut Ctx) -> Verdict {
 fn run_direct(d: &Value, ctx: &mut Ctx) -> Verdict {
     let kind = KINDS.iter().copied().find(|k| Some(format!("{k:?}").as_str()) == d["kind"].as_str()).ok_or_else(|| Failure::fault("bad kind"))?;
     let num = |k: &str| d[k].as_str().and_then(|s| s.parse::<u64>().ok());
-    let c = Case { kind, limit: num("limit"), size: d["size"].as_u64().unwrap_or(0), settings_first: d["settings_first"].as_bool().unwrap_or(true), peer_limit: num("peer_limit"), tiny: d["tiny"].as_bool().unwrap_or(false), split: d["split"].as_bool().unwrap_or(false) };
+    let c = Case { kind, limit: num("limit"), size: d["size"].as_u64().unwrap_or(0), settings_first: d["settings_first"].as_bool().unwrap_or(true), peer_limit: num("peer_limit"), tiny: d["tiny"].as_bool().unwrap_or(false), split: d["split"].as_bool().unwrap_or(false), wire: d["wire"].as_u64().unwrap_or(0) as u8 };
     let sched: Vec<u16> = d["sched"].as_array().map(|a| a.iter().map(|x| x.as_u64().unwrap_or(0) as u16).collect()).unwrap_or_default();
     run_case(&c, &sched, ctx)
 }
